@@ -164,6 +164,11 @@ impl Iterator for NeighborsIter {
                 continue;
             }
 
+            // The far end was deleted by the same transaction: the relationship is already dangling.
+            if self.pending_tombstoned_nodes.contains(&edge.dst) {
+                continue;
+            }
+
             return Some(edge);
         }
     }
@@ -327,6 +332,11 @@ impl Iterator for IncomingNeighborsIter {
             }
 
             if edge_blocked_incoming(edge, &self.blocked_nodes, &self.blocked_edges) {
+                continue;
+            }
+
+            // The far end was deleted by the same transaction: the relationship is already dangling.
+            if self.pending_tombstoned_nodes.contains(&edge.src) {
                 continue;
             }
 
